@@ -114,6 +114,7 @@ func C14(c *vlib.Ctx) {
 	c14Store(c)
 	c14Big(c)
 	c14Admin(c)
+	c14MCPProxyFaults(c)
 	// "voiding the lease of a leased message they cancel", with the lease holders
 	// settling concurrently (batch forms; on SQLite the operator works through a
 	// second handle on the same file, as hookaido mcp does): the lease-register
